@@ -5,6 +5,13 @@ def sc(b,mdo): return [{"set":"b%d"%b,"file":"pwr/constants.go","ident":"BlockSi
   {"set":"b%d"%b,"file":"wsync/algo.go","ident":"minBufferSize","func":"ApplySingleFull","value":str(max(1,b//2))},
   {"set":"b%d"%b,"file":"pwr/bowl/bowl_fresh.go","ident":"freshBufferSize","value":str(max(1,b//2))}]
 scale=sc(2,5)+sc(4,8)
+# set "w": B=4 with a bsdiff scan block of 64 (real matches) and the production ratios kept: LRU chunk = patch buffer = B/2
+# (32 KiB : 64 KiB), so a chunk never straddles a block; 2 cache entries
+scale+=[dict(r,set="w") for r in sc(4,8)]+[
+  {"set":"w","file":"bsdiff/diff.go","func":"Do","match":"128 * 1024","value":"64"},
+  {"set":"w","file":"bsdiff/patch.go","func":"NewIndividualPatchContext","ident":"minBufferSize","value":"2"},
+  {"set":"w","file":"bsdiff/patch.go","func":"NewIndividualPatchContext","ident":"lruChunkSize","value":"2"},
+  {"set":"w","file":"bsdiff/patch.go","func":"NewIndividualPatchContext","ident":"lruNumEntries","value":"2"}]
 Q=["quick","thorough"];T=["thorough"]
 def grid(B,nsl,rels):
     out=[]
@@ -16,9 +23,11 @@ def grid(B,nsl,rels):
 H=[{"name":"H_witness","tiers":Q,"expect":"violation","bounds":"vacuity witness"}]
 H.append({"name":"H_safe","tiers":Q,"scale":"b2","bounds":"B=2: pristine old 0..2B+1, damaged old any length 0..old+B+1 or deleted, independent fully symbolic contents; new = old / old+1 byte / first block moved to the end / second block onwards",
   "param_sets":grid(2,[0,1,2,3,4,5],[0,1,2,3])})
+H.append({"name":"H_safe_bsdiff","tiers":Q,"scale":"w","bounds":"optimized patch (bsdiff series read through the LRU file on top of the safekeeper; B=4, LRU chunk = patch buffer = 2 as 32 KiB is to 64 KiB, 2 cache entries): pristine old 13..14 concrete bytes, two bytes inserted at 1 / 5 (+ optionally one edited byte), damaged old fully symbolic of the same length or one byte shorter",
+  "param_sets":[{"ns":ns,"na":na,"ins":i,"edit":e} for ns in (13,14,17) for na in (ns,ns-1) for i in (1,5) for e in (-1,9)]})
 H.append({"name":"H_safe","tiers":T,"scale":"b4","bounds":"B=4: pristine old in {0,3,4,5,8,9}, damaged 0..old+B+1","max_seconds":1500,"param_sets":grid(4,[0,3,4,5,8,9],[0,1,2,3])})
 H.append({"name":"H_safe","tiers":T,"scale":"b2","bounds":"B=2: pristine old 6..7","max_seconds":1500,"param_sets":grid(2,[6,7],[0,1,2,3])})
 json.dump({"property":"C09","package":"c09","scale":scale,"harnesses":H,
  "stubs":["os -> in-memory file system model (copy buffer B/2, so reads never straddle a block, as 32 KiB is to 64 KiB)","crypto/md5 -> injective model: strong-hash collisions excluded","protobuf/wire -> codec model"],
- "outside":["bsdiff series through the safekeeper (lrufile consumer) - covered only via C07/C12 harnesses without damage","block size 64 KiB (declared value scaled)","optimized patches"]},open("config.json","w"),indent=1)
+ "outside":["bsdiff series through the safekeeper beyond the H_safe_bsdiff grid","block size 64 KiB (declared value scaled)"]},open("config.json","w"),indent=1)
 for h in H: print(h["name"],h["tiers"],h.get("scale"),len(h.get("param_sets",[1])))
